@@ -51,7 +51,7 @@ def run_arith(repo, rep, prop):
     # structural facts are read only off loops in the recognised dispatch form; a restructured loop is decided by the interpreted
     # layout model (L.m) alone
     ms = {k: (m if m.exact else NullMachine(m.fn, m.reason)) for k, m in ms.items()}
-    all_exact = all(m.exact for m in ms.values())
+    all_exact = all(m.exact and not any(b.opaque for b in m.branches) for m in ms.values())
     rep.analysed['machines_shape'] = {k: ('recognised' if m.exact else 'not recognised (%s): decided by the layout model only' % m.reason)
                                       for k, m in ms.items()}
     params = _pred_params(repo)
